@@ -45,9 +45,10 @@ let () =
   let cases = read_lines Sys.argv.(1) in
   let impl = if Array.length Sys.argv > 2 && Sys.argv.(2) <> "-" then read_lines Sys.argv.(2) else [] in
   let variant = if Array.length Sys.argv > 3 then Sys.argv.(3) else "repaired" in
-  let ordered = (variant = "repaired" || variant = "d_reserve" || variant = "d_delfail") in
-  let reserve = (variant = "repaired" || variant = "d_async" || variant = "d_delfail") in
-  let delretry = (variant = "repaired" || variant = "d_reserve" || variant = "d_async") in
+  let ordered = (variant = "repaired" || variant = "d_reserve" || variant = "d_delfail" || variant = "d_giveup") in
+  let reserve = (variant = "repaired" || variant = "d_async" || variant = "d_delfail" || variant = "d_giveup") in
+  let delretry = (variant = "repaired" || variant = "d_reserve" || variant = "d_async" || variant = "d_giveup") in
+  let delforever = (variant = "repaired") in
   List.iteri (fun idx line ->
     let il = (try List.nth impl idx with _ -> "") in
     let segs = Array.of_list (split_on " | " il) in
@@ -55,7 +56,7 @@ let () =
     | p :: n4 :: n6 :: kpd :: ops when (p = "ipoe" || p = "pppoe") ->
       (try
         let proto = if p = "ipoe" then IPoE else PPPoE in
-        let c = { c_proto = proto; c_ordered = ordered; c_reserve = reserve; c_delretry = delretry; c_n4 = ni (int_of_string n4);
+        let c = { c_proto = proto; c_ordered = ordered; c_reserve = reserve; c_delretry = delretry; c_delforever = delforever; c_n4 = ni (int_of_string n4);
                   c_n6 = ni (int_of_string n6); c_npd = ni (1 lsl (int_of_string kpd)) } in
         let s = ref init in
         let outs = ref [] in
@@ -82,6 +83,8 @@ let () =
             | "poison" -> Some (Poison (ni (int_of_string a.(1)), Array.length a > 2 && a.(2) = "a"))
             | "cksf" -> Some (CksF (ni (int_of_string a.(1))))
             | "relf" -> Some (RelF (ni (int_of_string a.(1))))
+            | "delretry" -> Some (DelRetry (ni (int_of_string a.(1)), Array.length a > 2 && a.(2) = "ok"))
+            | "giveup" -> Some (GiveUp (ni (int_of_string a.(1))))
             | "flip" -> Some Flip
             | "relstop" ->
               Some (RelStop (ni (int_of_string a.(1)), (Array.length a > 3 && a.(3) = "d"), a.(2) = "p", None, Z0))
@@ -115,6 +118,12 @@ let () =
                  | OCks (t, lg) -> Printf.sprintf "cks %s %s" (si t) (log_s lg)
                  | ORel lg -> "rel " ^ log_s lg
                  | ODone rt -> if a.(0) = "flip" then "flip" else if a.(0) = "poison" then "poison" else if rt then "done retry" else "done"
+                 | ONote (n, lg) ->
+                   (match a.(0), int_of_n n with
+                    | "delretry", 0 -> "delretry none" | "delretry", 1 -> "delretry fail"
+                    | "delretry", _ -> "delretry " ^ log_s lg
+                    | "giveup", 0 -> "giveup none" | "giveup", 1 -> "giveup gaveup" | "giveup", _ -> "giveup retrying"
+                    | _ -> "note")
                  | OCrash lg -> Printf.sprintf "crash %s start=ok live=%s store=%s" (log_s lg) (sessions_s proto s'.live)
                                   (sessions_s proto s'.store) in
                outs := txt :: !outs)) ops;
